@@ -2,6 +2,7 @@ import MocModel.Drv.C02
 import MocModel.Drv.Mw
 import MocModel.Drv.Prom
 import MocModel.Drv.Http
+import MocModel.Drv.Cache
 open Moc.Drv
 
 def handlers : List (String × Handler) := [
@@ -9,7 +10,8 @@ def handlers : List (String × Handler) := [
   ("C17", MwD.handler),
   ("C18", MwD.handler),
   ("C19", PromD.handler),
-  ("C20", HttpD.handler)
+  ("C20", HttpD.handler),
+  ("cache", CacheD.handler)
 ]
 
 def main (args : List String) : IO UInt32 := do
